@@ -809,6 +809,11 @@ def step (st : St) (op : List String) (obs : Json) : St × String :=
       if tag == "" || tags.contains tag then tags else tags ++ [tag])) (st, [], [])
   let okLine := s!"ok {op.headD ""}:{"+".intercalate tags}"
   if !fullObs then
+    -- a caught panic (the harness answers without states once a store lock is poisoned): the
+    -- first one of a case is the violation, the poisoned-lock echoes after it are not
+    if st.mode != "C02" && ret.startsWith "PANIC" && !ret.startsWith "PANIC:poisoned" then
+      (st, "FAIL oracle Panic" ++ (if revokeMappedMissing st.model then ":revoke-mapped-missing-class" else ""))
+    else
     (st, if fails.isEmpty then okLine else "FAIL model " ++ short ("; ".intercalate fails) 1500)
   else
   -- 3. observed states
